@@ -44,7 +44,7 @@ SPECS = {
     'C11': dict(level='translation_validation', engines=['WIT', 'GEN'], rules=['G-ASSERT', 'G-TYPEINFO', 'G-UNINIT', 'W-C11'],
                 stats=['assert_types'],
                 what='compile-fail witnesses for perturbed size / align / may-be-uninit on non-Copy, each with a compiling twin; every field type has a size and an alignment const assertion'),
-    'C12': dict(level='other', engines=['SRC', 'GEN'], rules=['B-', 'G-HISTORY'],
+    'C12': dict(level='other', engines=['SRC', 'GEN'], rules=['B-', 'G-HISTORY', 'G-PANIC'],
                 what='ids come from the length of an append-only vector; rejected requests mutate nothing; variants.push is control-dependent on pending changes; build() dominated by both emptiness checks; each strategy lists each added id once'),
     'C13': dict(level='translation_validation', engines=['GEN', 'SRC'], rules=['G-PANIC', 'G-COMPILES', 'S-SENTINEL', 'S-RAW'],
                 stats=[],
@@ -52,7 +52,7 @@ SPECS = {
     'C14': dict(level='translation_validation', engines=['GEN'], rules=['G-AUTO', 'G-LAYOUT'],
                 stats=['auto_trait_queries'],
                 what='for every record type: Send/Sync (rustc trait solver) iff every field type is'),
-    'C15': dict(level='translation_validation', engines=['GEN'], rules=['G-SERDE', 'G-HISTORY'],
+    'C15': dict(level='translation_validation', engines=['GEN'], rules=['G-SERDE', 'G-HISTORY', 'G-LEAK', 'G-DOUBLE', 'G-UNANALYSABLE'],
                 stats=['kind:serialize', 'kind:visit_seq', 'kind:deserialize'],
                 what='serialiser and visitor tables agree: arity, order, types; fields listed in the order of the requests; visitor feeds the same-named constructor field; wrong length / missing element rejected; decoded values dropped on early return'),
     'C16': dict(level='translation_validation', engines=['GEN'], rules=['G-CLONE'],
